@@ -15,10 +15,14 @@ KINDS2 = KINDS + ('bytearray', 'deque', 'range')
 # round 3: still more input kinds: a dict (its keys, distinct items only), a memoryview and an array of small ints
 # (sequences that are not list / str / bytes), a bare iterable (only __iter__: no len, no bool, no indexing)
 # and an old-style sequence (only __len__ / __getitem__)
-KINDS3 = KINDS2 + ('dict', 'memoryview', 'array', 'iterable', 'getitem')
+# round 3b: 'words' - a list whose items are whole strings ('aa', 'bb', ...; None allowed), the item type of the
+# library's own docstring examples: a str separator / strip value is then ONE item value (is_scalar), not a
+# collection of characters
+KINDS3 = KINDS2 + ('dict', 'memoryview', 'array', 'iterable', 'getitem', 'words')
 REITERABLE = ('list', 'tuple', 'str', 'bytes', 'bytearray', 'deque', 'range', 'dict', 'memoryview', 'array',
-              'iterable', 'getitem')
-MUTABLE = ('list', 'bytearray', 'deque', 'dict', 'array')
+              'iterable', 'getitem', 'words')
+MUTABLE = ('list', 'bytearray', 'deque', 'dict', 'array', 'words')
+WORD_KEYS = ('id', 'const', 'nope', 'real')      # key kinds that make sense for str items
 KEYS_NUM = ('id', 'mod2', 'mod3', 'div2', 'const', 'bool', 'real', 'imag', 'den', 'nope')
 
 
@@ -65,8 +69,15 @@ class GetItemSeq:
         return self._items[i]
 
 
+def ekind(kind):
+    """the kind that decides how a separator / strip value / fill code is decoded for an input of this kind"""
+    return kind if kind in ('str', 'words') else 'list'
+
+
 def kind_ok(kind, codes):
     """can an input of this kind hold exactly these item codes?"""
+    if kind == 'words':
+        return all(c == 0 or tag(c) == 0 for c in codes)
     if kind == 'range':
         return is_run(codes)
     if kind == 'dict':
@@ -79,6 +90,8 @@ def kind_ok(kind, codes):
 
 
 def dec(c, kind='list'):
+    if kind == 'words':
+        return None if c == 0 else chr(97 + val(c)) * 2
     kind = ikind(kind)
     if kind == 'str':
         return chr(97 + val(c))
@@ -94,7 +107,7 @@ def dec_fill(c, kind):
     """a fill / end value of the item type of `kind` (None stays None)"""
     if c is None or c == 0:
         return None
-    return dec(c, ikind(kind))
+    return dec(c, kind if kind == 'words' else ikind(kind))
 
 
 class BadValue(Exception):
@@ -117,6 +130,8 @@ def enc(o):
         return 1 + 3 * int(o) + 1
     if type(o) is str and len(o) == 1 and ord(o) >= 97:
         return 1 + 3 * (ord(o) - 97)
+    if type(o) is str and len(o) == 2 and o[0] == o[1] and ord(o[0]) >= 97:
+        return 1 + 3 * (ord(o[0]) - 97)          # a 'words' item
     raise BadValue('not an input item: ' + repr(o)[:60])
 
 
@@ -127,7 +142,9 @@ def encl(seq):
 
 def mk_src(codes, kind):
     items = [dec(c, kind) for c in codes]
-    if kind == 'list':
+    if kind in ('list', 'words'):
+        if not kind_ok(kind, codes):
+            raise BadCase('words input needs plain codes')
         return items
     if kind == 'tuple':
         return tuple(items)
@@ -226,7 +243,7 @@ def kcls(k):
     if k is None:
         return 0
     if type(k) is str:
-        return ord(k) - 97 + 1
+        return ord(k[0]) - 97 + 1
     return int(k) + 1
 
 
@@ -243,6 +260,14 @@ class _CallableObject:
         return self._f(x)
 
 
+class _FalsyCallable(_CallableObject):
+    """round 3b: a callable object whose truth value is False (it defines __bool__; an empty callable container
+    with __len__ is the same): still callable(), still `is not None`"""
+
+    def __bool__(self):
+        return False
+
+
 def as_callable_kind(f, kc, intvalued=False):
     """round 3: the same function as another KIND of callable - every one satisfies callable():
     'lambda' a plain function, 'partial' a functools.partial, 'object' an instance with __call__,
@@ -255,6 +280,8 @@ def as_callable_kind(f, kc, intvalued=False):
         return functools.partial(lambda g, x: g(x), f)
     if kc == 'object' or (kc == 'class' and not intvalued):
         return _CallableObject(f)
+    if kc == 'falsy':
+        return _FalsyCallable(f)
     if kc == 'method':
         return _CallableObject(f).method
     if kc == 'class':
@@ -270,7 +297,7 @@ class _IntKey(int):
         return int.__new__(cls, cls._f(x))
 
 
-CALLABLE_KINDS = ('lambda', 'partial', 'object', 'method', 'class')
+CALLABLE_KINDS = ('lambda', 'partial', 'object', 'method', 'class', 'falsy')
 
 
 def key_callable(name, kc=None):
@@ -412,6 +439,60 @@ def flatten(ll):
     return [x for l in ll for x in l]
 
 
+ATTR_KEYS = ('real', 'imag', 'den', 'nope')
+
+
+def key_kind(case, fn):
+    """round 3b: the KIND of the Python object the harness passes as `key` to `fn` (unique / redundant / bucketize;
+    partition hands its key to bucketize) - the model computes the branch of fn's key dispatch from it"""
+    name = case['key']
+    if name in ATTR_KEYS:
+        return 'str'
+    if fn == 'bucketize':
+        if case.get('dflt') and name == 'bool':
+            return 'class'                       # the default: the class `bool`
+        return case.get('kc') or 'lambda'        # the identity key is passed as a callable too
+    if name == 'id':
+        return 'none'
+    return case.get('kc') or 'lambda'
+
+
+def key_probe_objects():
+    """one object of every kind a caller may pass as `key` (for the generated key-dispatch table); the callables
+    compute x % 2, the attribute is `denominator` (1 for every int), the list holds per-item keys"""
+    def f(x):
+        return x % 2
+    return [('none', None), ('lambda', f), ('partial', as_callable_kind(f, 'partial')),
+            ('object', as_callable_kind(f, 'object')), ('method', as_callable_kind(f, 'method')),
+            ('class', as_callable_kind(f, 'class', True)), ('falsy', as_callable_kind(f, 'falsy')),
+            ('str', 'denominator'), ('list', [7, 7, 8]), ('int', 3)]
+
+
+def probe_key_branch(iu, fn, obj):
+    """which branch of fn's key dispatch the live function takes for this key object, observed on the items
+    1, 2, 3 (identity: three keys; call: keys 1, 0, 1; attr: one key; perItem: keys 7, 7, 8)"""
+    src = [1, 2, 3]
+    try:
+        with time_limit(10):
+            if fn == 'unique':
+                r = list(iu.unique_iter(src, obj))
+                table = {(1, 2, 3): 'identity', (1, 2): 'call', (1,): 'attr'}
+                return table.get(tuple(r), 'other')
+            if fn == 'redundant':
+                r = iu.redundant(src, obj)
+                table = {(): 'identity', (3,): 'call', (2,): 'attr'}
+                return table.get(tuple(r), 'other')
+            r = iu.bucketize(src, obj)
+            shape = sorted((int(k), tuple(v)) for k, v in r.items())
+            table = {((1, (1,)), (2, (2,)), (3, (3,))): 'identity', ((0, (2,)), (1, (1, 3))): 'call',
+                     ((1, (1, 2, 3)),): 'attr', ((7, (1, 2)), (8, (3,))): 'perItem'}
+            return table.get(tuple(shape), 'other')
+    except TypeError:
+        return 'typeError'
+    except Exception as e:
+        return 'raises' + exc_name(e)
+
+
 def is_subsequence(small, big):
     it = iter(big)
     return all(any(x == y for y in it) for x in small)
@@ -439,6 +520,10 @@ class C09(Property):
             'with every separator kind and maxsplit -1..5; lengths 0..8 x size -1..9 x count x fill for '
             'chunked/windowed; all lists up to 5 over 4 aliasing items for unique/redundant/bucketize/partition; '
             'all chunk_ranges parameters up to 13/7/9; then seeded random larger cases with 1/1.0/True aliases. '
+            'Round 3b: lists of whole-string items (words; a str separator / strip value is one item value), a few '
+            'long inputs (63 .. 2049 items) per helper, callable objects whose truth value is False as key / sep / '
+            'transform / filter; a call with INVALID parameters is outside the domain (no model line, the oracle '
+            'only rejects a hang, a changed input and a list form differing from the *_iter form). '
             'Non-trivial = valid parameters and an output with at least two groups/chunks/windows/ranges, or '
             'something actually stripped / deduplicated; distinct = distinct (op, kind, items, parameters).')
     ASSUMPTIONS = [
@@ -446,11 +531,14 @@ class C09(Property):
         'inputs are finite; infinite iterators are outside the property',
         'key / value_transform / key_filter callables are pure and drawn from a table both sides can evaluate',
         'chunk_ranges with overlap_size >= chunk_size (zero or negative step) is outside the model and not judged',
-        'windowed size 0, non-positive chunk sizes and negative counts / maxsplit are "invalid parameters": the '
-        'model reproduces them but the oracle demands nothing there; likewise a float count (rejected by '
-        'itertools.islice), a float window size (rejected by itertools.tee) and a str separator that is not a '
-        'single character (it equals no item: nothing is split)',
-        'numeric arguments are ints, bools or floats with fractional part .0 / .5 (int() truncates toward zero); '
+        'windowed size 0, non-positive chunk sizes, negative counts / maxsplit, a float count (today rejected by '
+        'itertools.islice), a float window size (today rejected by itertools.tee), a str separator of a str input '
+        'that is not a single character, a bytes object as separator, invalid chunk_ranges numbers and a key list '
+        'of the wrong length are "invalid parameters": the statement quantifies over valid parameters, so nothing '
+        'is demanded and nothing is compared there (which exception, raised when, or whether a later version '
+        'accepts the call is left open)',
+        'numeric arguments are ints or bools (True / False as 1 / 0); a float where an integer is expected (x.0, x.5: '
+        'today truncated by int() or rejected by islice / tee) is an invalid parameter in the above sense (round 3b); '
         'chunk sizes above sys.maxsize (rejected by itertools.islice) are not generated',
     ]
     CORRESPONDENCE_NAME = 'C09.Driver (iterutils helper models) vs boltons.iterutils functions'
@@ -502,6 +590,12 @@ class C09(Property):
             except Exception as e:      # the table then disagrees with the model and the theorem names it
                 tname = 'raises'
             chunk_rows.append('  ("%s", "%s")' % (kind, tname))
+        key_rows = []
+        for fn in ('unique', 'redundant', 'bucketize'):
+            for kname, obj in key_probe_objects():
+                if fn == 'redundant' and kname == 'falsy' and self.falsy_key_defect_known():
+                    continue      # the region of the known finding C09-redundant-falsy-key (row back once fixed)
+                key_rows.append('  ("%s", "%s", "%s")' % (fn, kname, probe_key_branch(iu, fn, obj)))
         text = ('/- GENERATED by harness/bv/props/c09.py (regen) from the live boltons.iterutils - do not edit.\n'
                 '   One row per kind of object: (kind, callable(obj), is_iterable(obj), is_scalar(obj),\n'
                 '   is_collection(obj)) as answered by the current source for a sample object of that kind. -/\n'
@@ -514,8 +608,12 @@ class C09(Property):
                 'def defaultsTable : List (String × String × String) := [\n%s]\n\n'
                 '/-- (input kind, type of the chunks `chunked_iter` yields for an input of that kind) -/\n'
                 'def chunkTypeTable : List (String × String) := [\n%s]\n\n'
+                '/-- (function, kind of the object passed as `key`, branch of the key dispatch the live function takes:\n'
+                '    observed on the items 1, 2, 3 with callables computing x %% 2, the attribute `denominator` and the\n'
+                '    key list [7, 7, 8]) -/\n'
+                'def keyKindTable : List (String × String × String) := [\n%s]\n\n'
                 'end C09.Generated\n') % (',\n'.join(rows), ',\n'.join(plain), ',\n'.join(default_rows),
-                                          ',\n'.join(chunk_rows))
+                                          ',\n'.join(chunk_rows), ',\n'.join(key_rows))
         return {'C09_SepKinds.lean': text}
 
     # ------------------------------------------------------------------ generation
@@ -525,7 +623,9 @@ class C09(Property):
         # round 2: small, diverse, adversarial families first (a defect should surface within seconds), the big
         # exhaustive scopes after them, seeded random last
         yield from self.gen_small()
+        yield from self.gen_words()
         yield from self.gen_huge()
+        yield from self.gen_big()
         yield from self.gen_group(th)
         yield from self.gen_ranges(th)
         yield from self.gen_chunk_window(th)
@@ -539,7 +639,9 @@ class C09(Property):
         """finite (about a minute): wider exhaustive scopes, then random cases with a larger share of big ones"""
         rng = self.rng
         yield from self.gen_small()
+        yield from self.gen_words()
         yield from self.gen_huge()
+        yield from self.gen_big()
         yield from self.gen_group(True)
         yield from self.gen_ranges(True)
         yield from self.gen_chunk_window(True)
@@ -599,7 +701,7 @@ class C09(Property):
                         i += 1
                         case = {'op': 'split', 'kind': kinds[i % 5], 'xs': list(xs), 'sep': list(sep), 'ms': ms}
                         if sep[0] == 'c':
-                            case['kc'] = CALLABLE_KINDS[i % 5]
+                            case['kc'] = CALLABLE_KINDS[i % 6]
                         if ms is not None:
                             a = (None, 'f', 'h', 'b', None, 'g', None)[i % 7]
                             if a:
@@ -710,6 +812,14 @@ class C09(Property):
                         yield {'op': 'bucketize', 'kind': kind, 'xs': xs, 'key': key, 'vt': ('id', 'sq')[0 not in xs and i % 2],
                                'kf': (None, 1)[i % 2], 'kc': kc}
                         yield {'op': 'partition', 'kind': kind, 'xs': xs, 'key': key, 'kc': kc}
+                        if i % 3 == 0:
+                            # round 3b: the same through a callable object whose truth value is False
+                            yield {'op': 'unique', 'kind': kind, 'xs': xs, 'key': key, 'kc': 'falsy'}
+                            yield {'op': 'redundant', 'kind': kind, 'xs': xs, 'key': key, 'groups': bool(i % 2),
+                                   'kc': 'falsy'}
+                            yield {'op': 'bucketize', 'kind': kind, 'xs': xs, 'key': key, 'vt': 'id',
+                                   'kf': (None, 1)[i % 2], 'kc': 'falsy'}
+                            yield {'op': 'partition', 'kind': kind, 'xs': xs, 'key': key, 'kc': 'falsy'}
                     yield dict({'op': 'unique', 'kind': kind, 'xs': xs, 'key': key}, **tw)
                     yield dict({'op': 'redundant', 'kind': kind, 'xs': xs, 'key': key, 'groups': False}, **tw)
                     yield {'op': 'redundant', 'kind': kind, 'xs': xs, 'key': key, 'groups': False, 'dflt': True}
@@ -748,6 +858,78 @@ class C09(Property):
                             if palias(case, name):
                                 yield case
                             yield dict(base, pa={'size': 'h', 'cs': 'f', 'off': 'h', 'ov': 'f'})
+
+    def gen_words(self):
+        """round 3b: lists of whole-string items ('aa', 'bb', None ...), as in the library's docstring examples
+        (`split(['hi', 'hello', None, ...])`, `lstrip(['Foo', 'Bar'], 'Foo')`): a str separator / strip value is
+        ONE item value here (is_scalar), a collection of strings is a collection, the keys are the strings"""
+        syms = (0, 1, 4, 7)           # None, 'aa', 'bb', 'cc'
+        i = 0
+        for n in range(0, 5):
+            for xs in itertools.product(syms, repeat=n):
+                if n == 4 and xs[0] != 1:
+                    continue
+                xs = list(xs)
+                i += 1
+                tw = {'twice': True} if i % 3 == 0 else {}
+                for j, sep in enumerate((['n'], ['v', 1], ['v', 4], ['s', [1]], ['s', [1, 4]], ['s', [0, 7]],
+                                         ['c', [1]])):
+                    ms = (None, 1, None, 2, 0)[(i + j) % 5]
+                    case = dict({'op': 'split', 'kind': 'words', 'xs': xs, 'sep': sep, 'ms': ms}, **tw)
+                    if sep[0] == 's' and i % 2:
+                        case['sc'] = ('list', 'tuple', 'set', 'frozenset', 'dict', 'deque', 'gen', 'iter')[i % 8]
+                    yield case
+                for op in ('lstrip', 'rstrip', 'strip'):
+                    for v in (0, 1, 4):
+                        yield dict({'op': op, 'kind': 'words', 'xs': xs, 'v': v}, **tw)
+                for key in WORD_KEYS:
+                    yield dict({'op': 'unique', 'kind': 'words', 'xs': xs, 'key': key}, **tw)
+                    yield dict({'op': 'redundant', 'kind': 'words', 'xs': xs, 'key': key, 'groups': bool(i % 2)}, **tw)
+                    yield dict({'op': 'bucketize', 'kind': 'words', 'xs': xs, 'key': key, 'vt': 'id',
+                                'kf': (None, 1, 2, 0)[i % 4]}, **tw)
+                yield {'op': 'partition', 'kind': 'words', 'xs': xs, 'key': 'const'}
+                if n <= 3:
+                    for size in (1, 2, 3):
+                        for fill in (None, 0, 13):
+                            yield dict({'op': 'chunked', 'kind': 'words', 'xs': xs, 'size': size, 'count': None,
+                                        'fill': fill}, **tw)
+                            yield dict({'op': 'windowed', 'kind': 'words', 'xs': xs, 'size': size, 'fill': fill}, **tw)
+
+    def gen_big(self):
+        """round 3b: a few LONG inputs per helper (lengths around powers of two and 1000): a shortcut that is
+        only taken above a size threshold is outside every small scope"""
+        rng = self.rng
+        for n in (63, 64, 65, 127, 129, 255, 257, 511, 1023, 1025, 2049):
+            xs = [1 + 3 * (i % 97) for i in range(n)]
+            rs = [1 + 3 * rng.randrange(7) for _ in range(n)]
+            for kind in ('list', 'iter', 'bytes', 'str', 'tuple'):
+                if n > 300 and kind in ('bytes', 'tuple'):
+                    continue
+                for size in (1, 2, 7, n - 1, n, n + 1, n // 2):
+                    if n > 300 and size == 1:
+                        continue
+                    yield {'op': 'chunked', 'kind': kind, 'xs': xs, 'size': size, 'count': None,
+                           'fill': None if size % 2 else 13}
+                yield {'op': 'chunked', 'kind': kind, 'xs': xs, 'size': 3, 'count': n // 5, 'fill': None}
+                for size in (1, 2, 5, n) if n <= 300 else (2, 3):
+                    yield {'op': 'windowed', 'kind': kind, 'xs': xs, 'size': size, 'fill': None}
+                    yield {'op': 'windowed', 'kind': kind, 'xs': xs, 'size': size, 'fill': 13}
+                yield {'op': 'pairwise', 'kind': kind, 'xs': xs, 'fill': None}
+                for sep in (['v', 1], ['s', [1, 4]], ['c', [4]]):
+                    yield {'op': 'split', 'kind': kind, 'xs': rs, 'sep': sep, 'ms': None}
+                    yield {'op': 'split', 'kind': kind, 'xs': rs, 'sep': sep, 'ms': n // 3}
+                for op in ('lstrip', 'rstrip', 'strip'):
+                    pad = [4] * (n // 3)
+                    yield {'op': op, 'kind': kind, 'xs': pad + rs + pad, 'v': 4}
+                if kind != 'str':
+                    for key in ('id', 'mod3', 'div2'):
+                        yield {'op': 'unique', 'kind': kind, 'xs': rs if n > 300 else xs, 'key': key}
+                        yield {'op': 'redundant', 'kind': kind, 'xs': rs, 'key': key, 'groups': n % 2 == 0}
+                        yield {'op': 'bucketize', 'kind': kind, 'xs': rs, 'key': key, 'vt': 'id', 'kf': None}
+                    yield {'op': 'partition', 'kind': kind, 'xs': rs, 'key': 'mod2'}
+            none_rs = [0 if c == 1 else c for c in rs]
+            yield {'op': 'split', 'kind': 'list', 'xs': none_rs, 'sep': ['n'], 'ms': None}
+            yield {'op': 'split', 'kind': 'gen', 'xs': none_rs, 'sep': ['n'], 'ms': n // 4}
 
     def gen_huge(self):
         """round 2: boundary arithmetic at huge magnitudes (exact integers; a float shortcut goes wrong here)"""
@@ -884,6 +1066,9 @@ class C09(Property):
             elif ikind(kind) != 'list':
                 xs = self.random_items(rng, n, 6, none_ok=False, aliases=False)
                 fill = rng.choice([None, 1 + 3 * rng.randrange(6)])
+            elif kind == 'words':
+                xs = self.random_items(rng, n, 5, aliases=False)
+                fill = rng.choice([None, 0, 1 + 3 * rng.randrange(6)])
             else:
                 xs = self.random_items(rng, n, 5)
                 fill = rng.choice([None, 0, rng.choice([1, 2, 4, 6, 13])])
@@ -930,11 +1115,19 @@ class C09(Property):
                     sep = ['t', self.random_items(rng, rng.choice([0, 1, 1, 2, 3]), ncl, none_ok=False, aliases=False)]
             elif rng.random() < 0.1:
                 kind = 'deque'
+            elif rng.random() < 0.15:
+                # whole-string items: separators and items without the 1 / 1.0 / True aliases
+                kind = 'words'
+                xs = [c - tag(c) if c else 0 for c in xs]
+                if sep[0] == 'v':
+                    sep = ['v', sep[1] - tag(sep[1])]
+                elif sep[0] in 's':
+                    sep = ['s', sorted({c - tag(c) if c else 0 for c in sep[1]})]
             case = {'op': op, 'kind': kind, 'xs': xs, 'sep': sep,
                     'ms': rng.choice([None, None, rng.randint(0, 5), rng.randint(0, 2), -1 if rng.random() < 0.2 else 1])}
             if sep[0] == 's' and kind != 'str' and rng.random() < 0.5:
                 sc = rng.choice(SEP_CONTAINERS)
-                if sep_container_ok(sc, sep[1]):
+                if sep_container_ok(sc, sep[1]) and not (kind == 'words' and sc in SEP_INT_ONLY):
                     case['sc'] = sc
             r = rng.random()
             if r < 0.15 and case['ms'] is not None:
@@ -1015,6 +1208,19 @@ class C09(Property):
     # ------------------------------------------------------------------ model line
     def line(self, case):
         op = case['op']
+        # round 3b: the statement quantifies over VALID parameters only.  What an invalid call does (which exception,
+        # raised when, or whether a later version accepts it: a float `count`, a float window size, a non-positive
+        # size, a negative count / maxsplit, a str / bytes separator that is no single item, mismatched key lists,
+        # invalid chunk_ranges numbers) is left open by the statement, so such a case is outside the domain of the
+        # correspondence as well: no model line, the oracle demands nothing (it still rejects a hang, a changed
+        # input and a list form that differs from the *_iter form).
+        if not self.valid(case):
+            self.stats['outside-domain'] = self.stats.get('outside-domain', 0) + 1
+            return None
+        if op == 'redundant' and case.get('kc') == 'falsy' and self.falsy_key_defect_known():
+            # the region of the known finding C09-redundant-falsy-key (the key is ignored): the model follows the
+            # repaired code; oracle-only until the entry is `fixed`, compared again from then on
+            return None
         if op == 'chunked':
             return 'chunkedk %s %s %s %s %s' % (case['kind'], ptok(case, 'size'), ptok(case, 'count'),
                                                 opt(case['fill']), nats(case['xs']))
@@ -1031,12 +1237,14 @@ class C09(Property):
         if op == 'pystrip':
             return 'pystrip %s %d %s' % (case['side'], case['v'], nats(case['xs']))
         if op in ('unique', 'partition'):
-            return '%s %s %s' % (op, case['key'], nats(case['xs']))
+            return '%s %s@%s %s' % (op, case['key'], key_kind(case, 'unique' if op == 'unique' else 'bucketize'),
+                                    nats(case['xs']))
         if op == 'redundant':
-            return 'redundant %s %d %s' % (case['key'], 1 if case['groups'] else 0, nats(case['xs']))
+            return 'redundant %s@%s %d %s' % (case['key'], key_kind(case, 'redundant'), 1 if case['groups'] else 0,
+                                              nats(case['xs']))
         if op == 'bucketize':
             k = case['key']
-            ktok = k if isinstance(k, str) else 'L' + nats(k[1])
+            ktok = '%s@%s' % (k, key_kind(case, 'bucketize')) if isinstance(k, str) else 'L' + nats(k[1])
             return 'bucketize %s %s %s %s' % (ktok, case['vt'], '-' if case['kf'] is None else 'ne%d' % case['kf'],
                                               nats(case['xs']))
         if op == 'chunk_ranges':
@@ -1062,11 +1270,18 @@ class C09(Property):
             obs['ri'] = self.call(case, True)
         return obs
 
-    def call(self, case, iter_form):
+    def call(self, case, iter_form, limit_s=10):
         try:
-            with time_limit(10):
+            with time_limit(limit_s):
                 return {'ok': self.call_raw(case, iter_form)}
         except CaseTimeout:
+            if limit_s < 20 and not getattr(self, '_hang_confirmed', False):
+                # round 3b: the limit is wall-clock time and the machine is shared - a stalled process is not a
+                # hanging implementation.  The call is repeated once (the input object is rebuilt from the case) with
+                # twice the limit; a real endless loop times out again (and from then on no call is repeated).
+                self.stats['timeout-retried'] = self.stats.get('timeout-retried', 0) + 1
+                return self.call(case, iter_form, limit_s=20)
+            self._hang_confirmed = True
             return {'exc': 'CaseTimeout'}
         except BadValue as e:
             return {'exc': 'BadValue', 'msg': str(e)}
@@ -1099,7 +1314,9 @@ class C09(Property):
                 r = list(iu.chunk_ranges(**kw))
             else:
                 r = list(iu.chunk_ranges(size, cs, off, ov, case['align']))
-            if not all(type(t) is tuple and len(t) == 2 and type(t[0]) is int and type(t[1]) is int for t in r):
+            # "ranges": pairs of ints (today tuples; the statement does not fix the pair type)
+            if not all(isinstance(t, (tuple, list)) and len(t) == 2 and type(t[0]) is int and type(t[1]) is int
+                       for t in r):
                 raise BadValue('chunk_ranges yielded %r' % (r[:3],))
             return [[s, e] for s, e in r]
         kind = case['kind']
@@ -1124,23 +1341,23 @@ class C09(Property):
         """(positional arguments after src, the mutable separator container or None)"""
         dflt = bool(case.get('dflt'))
         sep = case['sep']
-        ekind = kind if kind == 'str' else 'list'
+        ek = ekind(kind)
         sepobj = None
         if sep[0] == 'n':
             a = (None,)
         elif sep[0] == 'v':
-            a = (dec(sep[1], ekind),)
+            a = (dec(sep[1], ek),)
         elif sep[0] == 't':
             a = (''.join(dec(c, 'str') for c in sep[1]),)
         elif sep[0] == 'y':
             a = (bytes(val(c) for c in sep[1]),)
         elif sep[0] == 's':
-            objs = [dec(c, ekind) for c in sep[1]]
+            objs = [dec(c, ek) for c in sep[1]]
             sc = case.get('sc')
             if sc is None:
                 sepobj = objs if len(objs) % 2 else tuple(objs)
             else:
-                if not sep_container_ok(sc, sep[1]) or ekind == 'str' and sc in SEP_INT_ONLY:
+                if not sep_container_ok(sc, sep[1]) or ek in ('str', 'words') and sc in SEP_INT_ONLY:
                     raise BadCase('a %s cannot hold the separators %r' % (sc, sep[1]))
                 sepobj = mk_sep_container(sc, objs)
                 if sc not in SEP_MUTABLE:
@@ -1150,7 +1367,7 @@ class C09(Property):
                 a = (sepobj,)
         else:
             classes = {cls(c) for c in sep[1]}
-            a = (as_callable_kind(lambda x: (0 if x is None else int(x) + 1) in classes, case.get('kc'), True),)
+            a = (as_callable_kind(lambda x: kcls(x) in classes, case.get('kc'), True),)
         if case['ms'] is not None:
             a = a + (pobj(case, 'ms'),)
         elif dflt and sep[0] == 'n':
@@ -1173,7 +1390,7 @@ class C09(Property):
             a, _ = self._split_args(case, kind)
             return iu.split_iter(src, *a)
         if op in ('lstrip', 'rstrip', 'strip'):
-            return getattr(iu, op + '_iter')(src, dec(case['v'], kind if kind == 'str' else 'list'))
+            return getattr(iu, op + '_iter')(src, dec(case['v'], ekind(kind)))
         if op == 'unique':
             k = key_callable(case['key'], case.get('kc'))
             return iu.unique_iter(src, *(() if k is None else (k,)))
@@ -1239,11 +1456,11 @@ class C09(Property):
             return [encl(w) for w in r]
         if op == 'split':
             sep = case['sep']
-            ekind = kind if kind == 'str' else 'list'
+            ek = ekind(kind)
             a, sepobj = self._split_args(case, kind)
             r = list(iu.split_iter(src, *a)) if it else iu.split(src, *a)
             if sepobj is not None:
-                want = [dec(c, ekind) for c in sep[1]]
+                want = [dec(c, ek) for c in sep[1]]
                 now = list(sepobj)
                 if type(sepobj) in (set, dict):
                     same = len(now) == len(mk_sep_container('set', want)) and all(
@@ -1254,7 +1471,7 @@ class C09(Property):
                     raise BadValue('the separator collection was modified by the call')
             return [encl(g) for g in r]
         if op in ('lstrip', 'rstrip', 'strip'):
-            v = dec(case['v'], kind if kind == 'str' else 'list')
+            v = dec(case['v'], ekind(kind))
             f = getattr(iu, op + '_iter' if it else op)
             r = f(src) if (case['v'] == 0 and len(case['xs']) % 2) else f(src, v)
             return encl(list(r))
@@ -1288,7 +1505,7 @@ class C09(Property):
                 kfc = case['kf']
                 kw['key_filter'] = as_callable_kind(lambda kk: kcls(kk) != kfc, case.get('kc'))
             r = iu.bucketize(src, **kw)
-            if type(r) is not dict:
+            if not isinstance(r, dict):        # a dict (or a subclass: the statement only speaks of buckets)
                 raise BadValue('bucketize returned %s' % type(r).__name__)
             if isinstance(k, list) and [(type(x), x) for x in k] != [(type(dec(c)), dec(c)) for c in key[1]]:
                 raise BadValue('the key list was modified by the call')
@@ -1361,11 +1578,19 @@ class C09(Property):
             return Failure('raises', '%s raised %s on valid parameters' % (op, r['exc']))
         got = r['ok']
         f = getattr(self, 'o_' + op)(case, got)
+        if f is not None and len(f.what) > 600:
+            f.what = f.what[:380] + ' ... ' + f.what[-200:]      # long inputs: keep both ends of the message
         return f
 
     @staticmethod
     def valid(case):
         op = case['op']
+        if any(is_float_alias(case, n) for n in (case.get('pa') or {})):
+            # round 3b: a FLOAT where an integer parameter is expected (size=2.0, maxsplit=1.5, input_size=6.5).
+            # Today most of them are accepted through int(), but the statement's laws ("every chunk has exactly
+            # size elements") say nothing for a non-integer: any judgement would need the extra assumption that the
+            # value is truncated.  A version validating with operator.index, or rounding, is as good: outside the domain.
+            return False
         if op == 'chunked':
             # a float count is rejected by itertools.islice (modelled; the property demands nothing there)
             return case['size'] >= 1 and (case['count'] is None or
@@ -1580,6 +1805,27 @@ class C09(Property):
                 return Failure('cr_cover', 'ranges %r do not cover exactly [%d, %d)' % (r, off, stop))
         return None
 
+    # ------------------------------------------------------------------ known findings
+    def falsy_key_defect_known(self):
+        if not hasattr(self, '_falsy_known'):
+            from bv.common import load_findings
+            self._falsy_known = any(e.get('id') == 'C09-redundant-falsy-key' and e.get('status') == 'known'
+                                    for e in load_findings(self.PID))
+        return self._falsy_known
+
+    def finding_redundant_falsy_key(self, case, failure):
+        """redundant() decides with `if key` (truthiness) whether to apply the key: a callable key object whose
+        truth value is False is silently ignored.  Matched only for redundant() called with such a key, and only
+        while the result is exactly what the identity key gives (any other wrong answer is a new violation)."""
+        if case.get('op') != 'redundant' or case.get('kc') != 'falsy' or failure.tag != 'redundant':
+            return False
+        if not isinstance(case.get('key'), str) or not callable(_key_callable(case['key'])):
+            return False
+        r = self.call(case, False)
+        if 'ok' not in r:
+            return False
+        return self.o_redundant(dict(case, key='id'), r['ok']) is None
+
     def nontrivial(self, case, obs):
         return getattr(self, '_nt', False)
 
@@ -1602,6 +1848,11 @@ class C09(Property):
             return
         if 'xs' in case:
             xs = case['xs']
+            if len(xs) > 8 and not isinstance(case.get('key'), list):
+                h = len(xs) // 2
+                yield dict(case, xs=xs[:h])
+                yield dict(case, xs=xs[h:])
+                yield dict(case, xs=xs[:len(xs) - len(xs) // 8])
             for i in range(len(xs)):
                 c = dict(case, xs=xs[:i] + xs[i + 1:])
                 if isinstance(case.get('key'), list):
